@@ -2,7 +2,7 @@ use crate::http_codec::HttpCodec;
 use crate::pipe::DuplexPipe;
 use crate::tcp_forwarder::TcpForwarder;
 use crate::tls_demultiplexer::Protocol;
-use crate::{core, http1_codec, http_codec, log_id, log_utils, pipe, tunnel};
+use crate::{core, http1_codec, http_codec, log_id, log_utils, net_utils, pipe, tunnel};
 use bytes::{BufMut, BytesMut};
 use std::io;
 use std::io::ErrorKind;
@@ -105,7 +105,12 @@ async fn handle_stream(
     log_id: &log_utils::IdChain<u64>,
 ) -> io::Result<()> {
     let (request, respond) = stream.split();
-    log_id!(trace, log_id, "Received request: {:?}", request.request());
+    log_id!(
+        trace,
+        log_id,
+        "Received request: {:?}",
+        net_utils::scrub_request(request.request())
+    );
 
     // the origin is configured by the operator: the policy for destinations chosen by clients
     // does not apply to it
@@ -144,7 +149,7 @@ async fn handle_stream(
         trace,
         log_id,
         "Sending translated request: {:?}",
-        request_headers
+        net_utils::scrub_request(&request_headers)
     );
     server_sink.write_all(encoded).await?;
 
